@@ -36,7 +36,7 @@ Proof.
   induction fs as [|[[from si] ks] r IH]; intros srcs j.
   - exists []. cbn. rewrite app_nil_r. split; reflexivity.
   - cbn [fetch_all].
-    destruct (match nth from srcs None with Some _ => _ | None => (None, []) end) as [o e].
+    destruct (if forallb _ from then _ else (None, [])) as [o e].
     destruct (IH (srcs ++ [o]) (S j)) as (more & Hm & Hl).
     destruct (fetch_all U sc subs frags vdsM supM f2 tn T items all (srcs ++ [o]) (S j) r) as [os es]. cbn [fst] in *.
     exists (o :: more). rewrite Hm, <- app_assoc. cbn [app length]. rewrite Hl. split; reflexivity.
@@ -78,7 +78,7 @@ Section PSStep.
 
   (* ---- one position ---- *)
   Variables (T : name) (e : entity) (p : list pel).
-  Variables (items : list (nat * pitem)) (fetches : list (nat * nat * list name)).
+  Variables (items : list (nat * pitem)) (fetches : list (fetch3)).
   Hypothesis HeU : In e U.
   Hypothesis HeT : en_type e = T.
   Hypothesis Hst : pt_static_b sc subs [] vdsM supM kq decls rdecls (S k) T (PT items fetches) = true.
@@ -98,9 +98,9 @@ Section PSStep.
   Definition hasf_p (d : fld3) : bool := match snd d with PKeep _ => false | PDown _ _ _ _ _ _ => true end.
   Definition part_p (t : nat) : list fld3 := filter (fun d => Nat.eqb (fst d) t) items.
   Definition A_p (t : nat) : list selection := map (fun d => item_proj (snd d)) (part_p t).
-  Definition ks_p (t : nat) : list name := flat_map snd (filter (fun f : nat * nat * list name => Nat.eqb (fst (fst f)) t) fetches).
+  Definition ks_p (t : nat) : list name := flat_map (keys_of t) (filter (deps_on t) fetches).
   Definition extra_p (t : nat) : list (bytes * json) :=
-    match filter (fun f : nat * nat * list name => Nat.eqb (fst (fst f)) t) fetches with
+    match filter (deps_on t) fetches with
     | [] => []
     | _ => added_members e (ks_p t) (A_p t)
     end.
@@ -208,7 +208,7 @@ Section PSStep.
   (* ---- the keys of the position ---- *)
   Lemma e_contract : ent_contract_b sc decls rdecls e = true.
   Proof.
-    pose proof Hc as H. unfold univ3_contract_b in H. apply andb_true_iff in H. destruct H as [H _].
+    pose proof Hc as H. unfold univ3_contract_b in H.
     unfold univ_contract_b in H. apply andb_true_iff in H. destruct H as [_ H]. rewrite forallb_forall in H. apply H. exact HeU.
   Qed.
 
@@ -216,7 +216,8 @@ Section PSStep.
   Lemma fetch_static_at : forall fs j pre from si ks r,
       fetches_static_b sc subs [] vdsM supM kq decls rdecls T items fetches j fs = true ->
       fs = pre ++ (from, si, ks) :: r ->
-      (from < j + length pre)%nat /\ (si < length subs)%nat /\
+      (from <> [] /\ (forall d, In d from -> (fst d < j + length pre)%nat) /\
+       names_incl ks (flat_map snd from) = true /\ names_incl (flat_map snd from) ks = true) /\ (si < length subs)%nat /\
       key_covered decls T ks = true /\ repr_fields_ok decls rdecls T ks = true /\
       sels_noent (src_proj (j + length pre) items fetches) = true /\
       req_ok_b (sub_at sc subs si) [] vars not_repr kq T (src_proj (j + length pre) items fetches) = true /\
@@ -231,8 +232,13 @@ Section PSStep.
       apply andb_true_iff in H. destruct H as [H H5].
       apply andb_true_iff in H. destruct H as [H H4].
       apply andb_true_iff in H. destruct H as [H H3].
-      apply andb_true_iff in H. destruct H as [H1 H2]. apply Nat.ltb_lt in H1. apply Nat.ltb_lt in H2.
-      repeat split; assumption.
+      apply andb_true_iff in H. destruct H as [H1 H2]. apply Nat.ltb_lt in H2.
+      apply andb_true_iff in H1. destruct H1 as [H1 H1d].
+      apply andb_true_iff in H1. destruct H1 as [H1 H1c].
+      apply andb_true_iff in H1. destruct H1 as [H1a H1b].
+      repeat split; try assumption.
+      + intros ->. discriminate.
+      + intros d Hd. rewrite forallb_forall in H1b. apply Nat.ltb_lt. apply H1b. exact Hd.
     - cbn [app fetches_static_b] in H. apply andb_true_iff in H. destruct H as [_ H].
       specialize (IH _ (S j) from si ks r H eq_refl). cbn [length]. rewrite <- Nat.add_succ_comm. exact IH.
   Qed.
@@ -245,10 +251,38 @@ Section PSStep.
     apply (repr_fields_contract sc decls rdecls T ks e Hrf e_contract HeT).
   Qed.
 
+  Lemma names_incl_In a b : names_incl a b = true -> forall x, In x a -> In x b.
+  Proof. unfold names_incl. intros H x Hx. rewrite forallb_forall in H. apply mem_bytes_In. apply H. exact Hx. Qed.
+
+  (* the representation fields of a fetch are exactly the fields its dependencies are asked for *)
+  Lemma fetch_deps from si ks : In (from, si, ks) fetches ->
+    from <> [] /\ (forall d, In d from -> (fst d < length fetches)%nat) /\
+    (forall x, In x ks -> In x (flat_map snd from)) /\ (forall x, In x (flat_map snd from) -> In x ks).
+  Proof.
+    intros Hin. apply in_split in Hin. destruct Hin as (pre & r & Hf).
+    destruct st_parts as (_ & _ & _ & _ & _ & Hfs & _).
+    destruct (fetch_static_at fetches 1%nat pre from si ks r Hfs Hf) as ((Hne & Hlt & Hi1 & Hi2) & _).
+    split; [exact Hne|]. split; [|split; apply names_incl_In; assumption].
+    intros d Hd. specialize (Hlt d Hd). rewrite Hf, app_length. cbn [length]. clear -Hlt. lia.
+  Qed.
+
+  Lemma keys_of_in t f x : In x (keys_of t f) -> In x (flat_map snd (fst (fst f))).
+  Proof.
+    unfold keys_of. intros H. apply in_flat_map in H. destruct H as (d & Hd & Hx). apply filter_In in Hd.
+    apply in_flat_map. exists d. split; [apply Hd|exact Hx].
+  Qed.
+
+  Lemma ks_p_in t x : In x (ks_p t) -> exists from si ks, In (from, si, ks) fetches /\ In x ks.
+  Proof.
+    unfold ks_p. intros Hx. apply in_flat_map in Hx. destruct Hx as ([[from si] ks] & Hf & Hx).
+    apply filter_In in Hf. exists from, si, ks. split; [apply Hf|].
+    apply (proj2 (proj2 (proj2 (fetch_deps from si ks (proj1 Hf))))). apply (keys_of_in t _ x Hx).
+  Qed.
+
   Lemma ks_p_ok t : forallb (key_field_ok sc e) (ks_p t) = true.
   Proof.
-    unfold ks_p. apply forallb_forall. intros x Hx. apply in_flat_map in Hx. destruct Hx as ([[from si] ks] & Hf & Hx).
-    apply filter_In in Hf. pose proof (fetch_keys_ok from si ks (proj1 Hf)) as H. rewrite forallb_forall in H. apply H. exact Hx.
+    apply forallb_forall. intros x Hx. destruct (ks_p_in t x Hx) as (from & si & ks & Hf & Hk).
+    pose proof (fetch_keys_ok from si ks Hf) as H. rewrite forallb_forall in H. apply H. exact Hk.
   Qed.
 
   Lemma fetch_keys_key_ok x : In x (fetch_keys fetches) -> key_ok sc e x = true.
@@ -261,8 +295,7 @@ Section PSStep.
   Lemma ks_p_in_fetch_keys t x : In x (key_names (ks_p t)) -> In x (fetch_keys fetches).
   Proof.
     unfold key_names, fetch_keys. intros [<-|Hx]; [left; reflexivity|]. right.
-    unfold ks_p in Hx. apply in_flat_map in Hx. destruct Hx as (f & Hf & Hx). apply filter_In in Hf.
-    apply in_flat_map. exists f. split; [apply Hf|exact Hx].
+    destruct (ks_p_in t x Hx) as (from & si & ks & Hf & Hk). apply in_flat_map. exists (from, si, ks). split; [exact Hf|exact Hk].
   Qed.
 
   (* a client field whose response key is a key name is that very field *)
@@ -300,7 +333,7 @@ Section PSStep.
     pose proof (length_le_sels_size (A_p t)) as H1.
     assert (H2 : (length (ks_p t) <= sels_size (keys_from t fetches) + 1)%nat).
     { unfold keys_from, ks_p. destruct (filter _ fetches) as [|f fs]; [cbn; lia|].
-      pose proof (length_le_sels_size (key_sels (flat_map snd (f :: fs)))) as H. unfold key_sels, key_names in H. rewrite map_length in H.
+      pose proof (length_le_sels_size (key_sels (flat_map (keys_of t) (f :: fs)))) as H. unfold key_sels, key_names in H. rewrite map_length in H.
       cbn [length] in H. unfold key_sels, key_names. lia. }
     pose proof (arith_flat (sels_size (A_p t) + sels_size (keys_from t fetches)) (schema_ty_depth sc)) as Ha.
     unfold level_cost in Hb. clear -Hb H1 H2 Ha. lia.
@@ -316,9 +349,9 @@ Section PSStep.
   Proof.
     intros Ht. unfold X_p, src_proj. fold (part_p t). fold (A_p t). rewrite <- exec_A.
     unfold keys_from, extra_p. fold (ks_p t).
-    destruct (filter (fun f : nat * nat * list name => Nat.eqb (fst (fst f)) t) fetches) as [|f0 fs0] eqn:Ef.
+    destruct (filter (deps_on t) fetches) as [|f0 fs0] eqn:Ef.
     - rewrite app_nil_r. destruct (mex' f2 T e (A_p t) (q_of t)) as [[la|] ea]; [rewrite app_nil_r|]; reflexivity.
-    - assert (Hks : flat_map snd (f0 :: fs0) = ks_p t) by (unfold ks_p; rewrite Ef; reflexivity).
+    - assert (Hks : flat_map (keys_of t) (f0 :: fs0) = ks_p t) by (unfold ks_p; rewrite Ef; reflexivity).
       rewrite Hks. unfold mex. rewrite <- HeT.
       apply (exec_with_keys sc U vars e (A_p t) (ks_p t) (q_of t) f2 (plain_A t) (ks_p_ok t) (keys_unaliased_A t) (need_src t Ht)).
   Qed.
@@ -334,20 +367,22 @@ Section PSStep.
     - unfold extra_p in Hin. destruct (filter _ fetches); [destruct Hin|]. apply (added_members_keyvals e (ks_p t) (A_p t) k0 v Hin).
   Qed.
 
-  Lemma src_present t la ea si ks x : (t <= length fetches)%nat ->
-    Rfold fld3 a_of_p (part_p t) = (Some la, ea) -> In (t, si, ks) fetches -> In x (key_names ks) ->
+  Lemma src_present t la ea from si ks l x : (t <= length fetches)%nat ->
+    Rfold fld3 a_of_p (part_p t) = (Some la, ea) -> In (from, si, ks) fetches -> In (t, l) from -> In x (key_names l) ->
     In x (map fst (la ++ extra_p t)).
   Proof.
-    intros Ht HR Hf Hx. rewrite <- exec_A in HR. unfold mex in HR. rewrite <- HeT in HR.
+    intros Ht HR Hf Hd Hx. rewrite <- exec_A in HR. unfold mex in HR. rewrite <- HeT in HR.
     assert (Hm : map fst la = map sel_key (A_p t)).
     { apply (plain_members sc U vars e (A_p t) (q_of t) f2 la ea (plain_A t) (distinct_A t)); [|exact HR].
       pose proof (need_src t Ht). lia. }
-    assert (Hin : In (t, si, ks) (filter (fun f : nat * nat * list name => Nat.eqb (fst (fst f)) t) fetches)).
-    { apply filter_In. split; [exact Hf|cbn [fst]; apply Nat.eqb_refl]. }
-    unfold extra_p. destruct (filter (fun f : nat * nat * list name => Nat.eqb (fst (fst f)) t) fetches) as [|f0 fs0] eqn:Ef; [destruct Hin|].
+    assert (Hin : In (from, si, ks) (filter (deps_on t) fetches)).
+    { apply filter_In. split; [exact Hf|]. unfold deps_on. cbn [fst]. apply existsb_exists. exists (t, l). split; [exact Hd|apply Nat.eqb_refl]. }
+    unfold extra_p. destruct (filter (deps_on t) fetches) as [|f0 fs0] eqn:Ef; [destruct Hin|].
     apply key_present; [|exact Hm].
     unfold key_names in *. destruct Hx as [<-|Hx]; [left; reflexivity|]. right.
-    unfold ks_p. rewrite Ef. apply in_flat_map. exists (t, si, ks). split; [exact Hin|exact Hx].
+    unfold ks_p. rewrite Ef. apply in_flat_map. exists (from, si, ks). split; [exact Hin|].
+    unfold keys_of. cbn [fst]. apply in_flat_map. exists (t, l). split; [|exact Hx].
+    apply filter_In. split; [exact Hd|apply Nat.eqb_refl].
   Qed.
 
   (* ---- the entity fetches of the position, one after the other ---- *)
@@ -381,11 +416,11 @@ Section PSStep.
 
   Lemma Hkc_p : key_consistent decls U = true.
   Proof.
-    pose proof Hc as H. unfold univ3_contract_b in H. apply andb_true_iff in H. destruct H as [H _].
+    pose proof Hc as H. unfold univ3_contract_b in H.
     unfold univ_contract_b in H. apply andb_true_iff in H. destruct H as [H _]. apply andb_true_iff in H. apply H.
   Qed.
   Lemma Hcu_p : univ_contract_b sc decls rdecls subs U = true.
-  Proof. pose proof Hc as H. unfold univ3_contract_b in H. apply andb_true_iff in H. apply H. Qed.
+  Proof. exact Hc. Qed.
 
   Lemma rfold_none_errs l ea : Rfold fld3 a_of_p l = (None, ea) -> ea <> [].
   Proof.
@@ -408,14 +443,16 @@ Section PSStep.
       split; [exact Hg|]. split; [exact Hl|]. split; [intros _ t Ht; clear -Ht; lia|reflexivity].
     - set (j := S (length pre)) in *.
       destruct st_parts as (_ & _ & _ & _ & _ & Hfs & _).
-      destruct (fetch_static_at fetches 1%nat pre from si ks rest Hfs Hf) as (Hfrom & Hsi & Hkcov & Hrf & Hne & Hreq & Hrq & _).
+      destruct (fetch_static_at fetches 1%nat pre from si ks rest Hfs Hf) as ((Hdne & Hfrom & Hinc1 & Hinc2) & Hsi & Hkcov & Hrf & Hne & Hreq & Hrq & _).
       change (1 + length pre)%nat with j in *.
       assert (Hlenf : length fetches = (length pre + S (length rest))%nat) by (rewrite Hf, app_length; reflexivity).
       assert (Hjle : (j <= length fetches)%nat) by (unfold j; clear -Hlenf; lia).
       assert (Hinf : In (from, si, ks) fetches) by (rewrite Hf; apply in_or_app; right; left; reflexivity).
       cbn [fetch_all] in Hfa.
-      assert (Hfl : (from < length srcs)%nat) by (rewrite Hl; exact Hfrom).
-      destruct (Hg from Hfl) as (laf & eaf & HRf & Hsf). rewrite Hsf in Hfa.
+      assert (Hfl : forall d, In d from -> (fst d < length srcs)%nat) by (intros d Hd; rewrite Hl; apply Hfrom; exact Hd).
+      assert (Hall : forallb (fun d : nat * list name => negb (is_none (nth (fst d) srcs None))) from = true).
+      { apply forallb_forall. intros d Hd. destruct (Hg (fst d) (Hfl d Hd)) as (la0 & ea0 & _ & Hs0). rewrite Hs0. reflexivity. }
+      rewrite Hall in Hfa.
       (* the representation *)
       assert (Hrepr : repr_from ks (merged srcs) = repr_of e ks).
       { apply (merged_repr sc e ks (fetch_keys fetches) (merged srcs)).
@@ -423,9 +460,17 @@ Section PSStep.
         - intros x Hx. unfold key_names, fetch_keys in *. destruct Hx as [<-|Hx]; [left; reflexivity|right].
           apply in_flat_map. exists (from, si, ks). split; [exact Hinf|exact Hx].
         - apply merged_keyvals; [clear -Hl Hjle; unfold j in *; lia|exact Hg].
-        - intros x Hx. assert (Hp : In x (map fst (laf ++ extra_p from))).
-          { apply (src_present from laf eaf si ks x); [clear -Hfrom Hjle; unfold j in *; lia|exact HRf|exact Hinf|exact Hx]. }
-          apply in_map_iff in Hp. destruct Hp as (kv & <- & Hkv). apply in_map. apply (merged_incl from _ srcs Hfl Hsf kv Hkv). }
+        - intros x Hx.
+          assert (Hsrc : exists t l, In (t, l) from /\ In x (key_names l)).
+          { unfold key_names in Hx. destruct Hx as [<-|Hx].
+            - destruct from as [|[t l] r0]; [contradiction|]. exists t, l. split; left; reflexivity.
+            - apply (names_incl_In _ _ Hinc1) in Hx. apply in_flat_map in Hx. destruct Hx as ([t l] & Hd & Hx).
+              exists t, l. split; [exact Hd|right; exact Hx]. }
+          destruct Hsrc as (t & l & Hd & Hxl). pose proof (Hfl _ Hd) as Htl. cbn [fst] in Htl.
+          destruct (Hg t Htl) as (laf & eaf & HRf & Hsf).
+          assert (Hp : In x (map fst (laf ++ extra_p t))).
+          { apply (src_present t laf eaf from si ks l x); [clear -Htl Hl Hjle; unfold j in *; lia|exact HRf|exact Hinf|exact Hd|exact Hxl]. }
+          apply in_map_iff in Hp. destruct Hp as (kv & <- & Hkv). apply in_map. apply (merged_incl t _ srcs Htl Hsf kv Hkv). }
       assert (Hwf : config_wf_b sc (sub_at sc subs si) = true)
         by (rewrite forallb_forall in Hwfs; apply Hwfs; unfold sub_at; apply nth_In; exact Hsi).
       assert (Hun : univ_ok_b (sub_at sc subs si) U = true)
